@@ -306,6 +306,11 @@ def levels_rule(ck, P, rule, names):
         while x is not None and x.get("k") == "mcall":
             chain.append(x["name"])
             x = ir.strip(x["recv"])
+        if nm in ("set_zoom_min", "set_zoom_max") and x is not None and x.get("k") == "index":
+            verdict = zoom_slice_form(b, lp, x, nm)
+            ck.check(verdict is None, rule, key + "|slice", "%s empties exactly the levels outside the limit (slice form, bounds compared as terms)" % nm,
+                     "%s (slice form): %s" % (nm, verdict), ir.loc(lp))
+            continue
         root = ir.place_str(x) if x is not None else "?"
         bad = [c for c in chain if c not in LEVEL_ADAPTERS_OK]
         ck.check(not bad and root == "self.level_bbox", rule, key + "|all-levels", "%s visits every level (self.level_bbox.%s)" % (nm, ".".join(reversed(chain))),
@@ -378,3 +383,42 @@ def sources_in_list_order(ck, rule, key, b, adt):
             bad.append(y["name"])
     ck.check(not bad and rooted, rule, key + "|sources-order", "the stored sources are built from args.sources with order-preserving combinators only",
              "the stored sources are produced through %s: their order is completion order / re-ordered, not the order of the pipeline text" % (sorted(set(bad)) or "an expression not rooted in args.sources"), ir.loc(init))
+
+
+def zoom_slice_form(b, lp, idx, nm):
+    """`for bbox in self.level_bbox[..E].iter_mut() { bbox.set_empty() }` (min) / `[S..]` (max): correct iff E = min(limit, LEN)
+    resp. S = min(limit, LEN-1) + 1 (or min(limit + 1, LEN)); returns None if correct, else the reason"""
+    from . import affine as A
+    if ir.place_str(idx["e"]) != "self.level_bbox":
+        return "the slice is not taken from self.level_bbox"
+    rng = ir.strip(idx["i"])
+    if rng.get("k") != "struct":
+        return "index expression is not a range"
+    kind = (rng.get("q") or "").rsplit("::", 1)[-1]
+    env = A.Env()
+    A.run(ir.stmts_of(ir.fn_block(b)), env)
+    zp = [x for p in b["params"] for x in ir.pat_binds(p) if x["t"] == "u8"]
+    if not zp:
+        return "no u8 limit parameter"
+    L = A.local_sym(zp[0])
+    t = (idx["e"].get("t") or "")
+    import re
+    m = re.search(r";\s*(\d+)\]", t)
+    if not m:
+        return "array length unknown"
+    LEN = int(m.group(1))
+    body_calls = [n for n in ir.walk_nodes(lp["body"]) if n.get("k") == "mcall"]
+    if [n["name"] for n in body_calls] != ["set_empty"] or any(n.get("k") in ("if", "match", "break", "continue") for n in ir.walk_nodes(lp["body"])):
+        return "loop body is not a single unconditional set_empty()"
+    bounds = [A.ev(f["e"], env) for f in rng["fields"]]
+    if nm == "set_zoom_min":
+        if kind != "RangeTo":
+            return "levels below the minimum are `[..limit]`, found %s" % kind
+        want = [A.tmin(L, A.const(LEN))]
+        ok = any(A.eq(bounds[0], w) for w in want)
+        return None if ok else "levels [..%s] are emptied, expected [..min(limit, %d)]: level(s) between stay populated or the slice panics" % (A.show(bounds[0]), LEN)
+    if kind != "RangeFrom":
+        return "levels above the maximum are `[limit+1..]`, found %s" % kind
+    want = [A.add(A.tmin(L, A.const(LEN - 1)), A.const(1)), A.tmin(A.add(L, A.const(1)), A.const(LEN))]
+    ok = any(A.eq(bounds[0], w) for w in want)
+    return None if ok else "levels [%s..] are emptied, expected [min(limit, %d) + 1..]" % (A.show(bounds[0]), LEN - 1)
